@@ -1,6 +1,7 @@
 package processor
 
 import (
+	"github.com/lab5e/lospan/pkg/verifgate"
 	"time"
 
 	"github.com/lab5e/lospan/pkg/lg"
@@ -19,6 +20,8 @@ type Encoder struct {
 }
 
 func (e *Encoder) processMessage(packet server.LoRaMessage) {
+	verifgate.Gate("enter:encoder")
+	defer verifgate.Gate("exit:encoder")
 	var buffer []byte
 	var err error
 
@@ -98,6 +101,7 @@ func (e *Encoder) processMessage(packet server.LoRaMessage) {
 	}
 
 	// Copy relevant data to the outgoing packet.
+	verifgate.Gate("handoff:encOutput")
 	e.output <- server.GatewayPacket{
 		RawMessage: buffer,
 		Radio:      packet.FrameContext.GatewayContext.Radio,
